@@ -3,6 +3,7 @@ package props
 import (
 	"fmt"
 	"strings"
+	"sync"
 	"testing"
 	"time"
 
@@ -31,6 +32,58 @@ type c13Case struct {
 
 type c13Gauges struct {
 	streams, open, hdr, body int64
+}
+
+// c13ClosedBound calibrates, once per process, how many closed stream ids the
+// server remembers: the high-water mark after 2000 and after 5000 plain
+// requests on one connection. The two must agree (the memory does not grow
+// with the number of streams); that value is the bound for every case, so the
+// check does not depend on the size the implementation happens to choose.
+var c13Closed struct {
+	once sync.Once
+	k    int64
+	why  string
+}
+
+func c13ClosedBound() (int64, string) {
+	c13Closed.once.Do(func() {
+		play := func(n int) (int64, string) {
+			h := peer.Start(peer.Config{MaxConcurrentStreams: 8, MaxRequestBodySize: 1000, DefaultResp: peer.Resp{Status: 200}})
+			defer h.Close()
+			h.SendSettings(nil)
+			id := uint32(1)
+			for i := 0; i < n; i++ {
+				// an indexed-only block: the same octets for every stream
+				_ = h.Write(rawframe.Append(nil, rawframe.Headers, rawframe.FlagEndHeaders|rawframe.FlagEndStream, id, []byte{0x82, 0x87, 0x84, 0x41, 0x01, 'a'}))
+				id += 2
+				if i%8 == 7 {
+					if ok, d := h.Quiesce(); !ok {
+						return 0, "calibration: no quiescence: " + d
+					}
+					h.Replenish()
+				}
+			}
+			if ok, d := h.Quiesce(); !ok {
+				return 0, "calibration: no quiescence: " + d
+			}
+			return h.Stats.MaxClosedSet.Load(), ""
+		}
+		k1, w1 := play(2000)
+		k2, w2 := play(5000)
+		switch {
+		case w1 != "" || w2 != "":
+			// cannot calibrate: fall back to a bound no sane implementation needs
+			c13Closed.k = 1 << 16
+		case k2 > k1:
+			c13Closed.why = fmt.Sprintf("the server remembers %d closed stream ids after 2000 plain requests on a connection and %d after 5000: the memory grows with the number of streams", k1, k2)
+		default:
+			c13Closed.k = k2
+			if c13Closed.k < 8 {
+				c13Closed.k = 8
+			}
+		}
+	})
+	return c13Closed.k, c13Closed.why
 }
 
 func c13Play(c c13Case, times int) (Outcome, c13Gauges, int) {
@@ -69,8 +122,11 @@ func c13Play(c c13Case, times int) (Outcome, c13Gauges, int) {
 			o := fail("stream-table", "%s: the stream table reached %d entries, MaxConcurrentStreams is %d", where, n, c.MaxStreams)
 			return &o
 		}
-		if n := st.MaxClosedSet.Load(); n > 256 {
-			o := fail("closed-set", "%s: closed-stream memory reached %d ids (ring of 256)", where, n)
+		if k, why := c13ClosedBound(); why != "" {
+			o := fail("closed-set-grows", "%s", why)
+			return &o
+		} else if n := st.MaxClosedSet.Load(); n > k {
+			o := fail("closed-set", "%s: closed-stream memory reached %d ids; under a plain flood of complete requests it settles at %d, however many streams come and go", where, n, k)
 			return &o
 		}
 		if n := st.MaxHeaderBuf.Load(); n > int64(c.MaxHdr)+16384+64 {
@@ -285,26 +341,29 @@ type c13BPCase struct {
 	N    int    `json:"n"`
 }
 
-func c13BPRun(c c13BPCase) Outcome {
+// c13BPPlay floods n frames at a server whose peer reads nothing and returns
+// how many of them the server holds (consumed minus answered on the wire) once
+// it has stopped consuming.
+func c13BPPlay(kind string, n int) (held int64, goaway bool, inconcl string) {
 	h := peer.Start(peer.Config{MaxConcurrentStreams: 1, MaxRequestBodySize: 1000, DefaultResp: peer.Resp{Status: 200, Gate: true}})
 	defer h.Close()
 	h.SendSettings(nil)
 	id := uint32(1)
-	if c.Kind == "refused" {
+	if kind == "refused" {
 		sendReq(h, id, simpleReq("slot"))
 		id += 2
 	}
 	if ok, d := h.Quiesce(); !ok {
-		return Outcome{Inconcl: "no quiescence after the handshake: " + d}
+		return 0, false, "no quiescence after the handshake: " + d
 	}
 	h.C.HoldReads(true)
 	h.S.SetWriteLimit(1024)
 	consumed0, written0 := h.S.Consumed(), h.S.Written()
 	var flood []byte
 	frameLen, replyLen := 0, 0
-	for i := 0; i < c.N; i++ {
+	for i := 0; i < n; i++ {
 		var f []byte
-		switch c.Kind {
+		switch kind {
 		case "ping":
 			f = rawframe.Append(nil, rawframe.Ping, 0, 0, []byte{0, 0, 0, 0, byte(i >> 24), byte(i >> 16), byte(i >> 8), byte(i)})
 			replyLen = 17
@@ -325,35 +384,45 @@ func c13BPRun(c c13BPCase) Outcome {
 	last, same := int64(-1), 0
 	for i := 0; i < 20000 && same < 40; i++ {
 		time.Sleep(500 * time.Microsecond)
-		if n := h.S.Consumed(); n == last {
+		if c := h.S.Consumed(); c == last {
 			same++
 		} else {
-			last, same = n, 0
+			last, same = c, 0
 		}
 	}
 	taken := (h.S.Consumed() - consumed0) / int64(frameLen)
 	left := (h.S.Written() - written0) / int64(replyLen)
-	// what may legitimately sit inside the server: both bufio buffers (4 KiB
-	// each, <= 456 of the smallest frames), the two frame queues (128 each)
-	// and a frame in each loop's hands
-	const bound = 1400
-	cls := []string{"bp:" + c.Kind}
-	if taken-left > bound {
-		return fail("reply-queue-unbounded:"+c.Kind, "the peer sent %d %s frames without reading a single reply: the server consumed %d of them while only %d replies left it, so %d replies (or frames waiting to be answered) are held in memory; its buffers and queues account for at most %d", c.N, c.Kind, taken, left, taken-left, bound)
+	return taken - left, len(peer.GoAways(h.EventsCopy())) > 0, ""
+}
+
+func c13BPRun(c c13BPCase) Outcome {
+	// the same flood at two sizes: what the server holds must have stopped
+	// growing, whatever the sizes of its buffers and queues are
+	h1, ga1, inc := c13BPPlay(c.Kind, c.N)
+	if inc != "" {
+		return Outcome{Inconcl: inc}
 	}
-	if ga := peer.GoAways(h.EventsCopy()); len(ga) > 0 {
+	h2, ga2, inc := c13BPPlay(c.Kind, 2*c.N)
+	if inc != "" {
+		return Outcome{Inconcl: inc}
+	}
+	cls := []string{"bp:" + c.Kind}
+	if ga1 || ga2 {
 		cls = append(cls, "bp-goaway")
 	}
-	return Outcome{NonTrivial: int64(c.N) > 2*bound, Classes: cls}
+	if h2 > h1+200 && h2 > h1+h1/4 {
+		return fail("reply-queue-unbounded:"+c.Kind, "a peer that reads nothing sent %d %s frames and the server ended up holding %d of them (consumed, reply not yet on the wire); with %d frames it holds %d: what it queues grows with what the peer sends instead of the server ceasing to read", c.N, c.Kind, h1, 2*c.N, h2)
+	}
+	return Outcome{NonTrivial: h1 < int64(c.N), Classes: cls}
 }
 
 func c13BPGen(t *rapid.T) c13BPCase {
-	return c13BPCase{Kind: rapid.SampledFrom([]string{"ping", "settings", "refused"}).Draw(t, "kind"), N: rapid.SampledFrom([]int{500, 3000, 6000, 12000}).Draw(t, "n")}
+	return c13BPCase{Kind: rapid.SampledFrom([]string{"ping", "settings", "refused"}).Draw(t, "kind"), N: rapid.SampledFrom([]int{3000, 6000}).Draw(t, "n")}
 }
 
 func TestC13(t *testing.T) {
 	s := newSuite(t, "C13",
-		"adversarial schedules of 1..8 operations, each repeated up to 300 times, from {complete request + immediate RST_STREAM with a parked handler, streams left half-open with partial bodies, PRIORITY on ever-new ids, CONTINUATION floods of complete fields and of one never-completed string, body over / not matching its declared size, header list over the limit, PING and SETTINGS floods, handler releases, normal requests} against small limits (MaxConcurrentStreams 1..8, MaxRequestBodySize 1000..65536, MaxHeaderListSize 600..8192), optionally played 4 times on one connection. Oracle: handlers running at once <= MaxConcurrentStreams; no handler gets a body over the limit or runs for a request whose header list / body broke a limit; hook gauges (stream table, closed-id memory, buffered header and body octets; high-water marks) stay within limit-derived bounds; playing the schedule 4 times leaves the end-of-run gauges where one pass leaves them. Backpressure lane: 500..12000 PING / SETTINGS / over-the-limit request frames written at once by a peer that reads nothing (server write buffer 1 KiB); oracle: frames consumed by the server minus replies that left it never exceeds what its two 4 KiB buffers and two 128-frame queues can hold (1400), i.e. the server stops reading rather than queueing replies without bound. Non-trivial = >=100 frames and a gauge sampled while a handler was parked, or (backpressure) a flood of more than twice the bound; distinct by case hash.")
+		"adversarial schedules of 1..8 operations, each repeated up to 300 times, from {complete request + immediate RST_STREAM with a parked handler, streams left half-open with partial bodies, PRIORITY on ever-new ids, CONTINUATION floods of complete fields and of one never-completed string, body over / not matching its declared size, header list over the limit, PING and SETTINGS floods, handler releases, normal requests} against small limits (MaxConcurrentStreams 1..8, MaxRequestBodySize 1000..65536, MaxHeaderListSize 600..8192), optionally played 4 times on one connection. Oracle: handlers running at once <= MaxConcurrentStreams; no handler gets a body over the limit or runs for a request whose header list / body broke a limit; hook gauges (stream table, buffered header and body octets; high-water marks) stay within limit-derived bounds; closed-id memory stays at the level it settles at under a plain flood (calibrated once per process with 2000 and 5000 requests, which must agree); playing the schedule 4 times leaves the end-of-run gauges where one pass leaves them. Backpressure lane: N and then 2N (N = 3000 or 6000) PING / SETTINGS / over-the-limit request frames written at once by a peer that reads nothing (server write buffer 1 KiB); oracle: the number of frames the server holds (consumed, reply not yet on the wire) when it stops consuming is the same for both floods (within 200 frames or 25%), i.e. the server ceases to read rather than queueing replies without bound, whatever its buffer and queue sizes are. Non-trivial = >=100 frames and a gauge sampled while a handler was parked, or (backpressure) a flood the server did not consume entirely; distinct by case hash.")
 	defer s.finish()
 	runLane(s, Lane[c13Case]{Name: "limits", Journal: true, Quick: 600, Thor: 30000, Gen: c13Gen, Run: c13Run})
 	runLane(s, Lane[c13BPCase]{Name: "backpressure", Journal: true, Quick: 16, Thor: 400, Gen: c13BPGen, Run: c13BPRun})
